@@ -513,6 +513,19 @@ func TestVerifC04Sched(t *testing.T) {
 				b = 2
 			}
 			for _, ms := range multisets(len(alphabet), 3) {
+				if cfg.Full {
+					// the long chain gets triples over the core of the alphabet (one request per distinct path through the chain)
+					skip := false
+					for _, k := range ms {
+						switch alphabet[k].Kind {
+						case "staletoken-internal", "anon-metrics", "anon-status", "anon-status-on-public":
+							skip = true
+						}
+					}
+					if skip {
+						continue
+					}
+				}
 				jobs = append(jobs, job{cfg, ms, b})
 			}
 		}
@@ -520,7 +533,7 @@ func TestVerifC04Sched(t *testing.T) {
 	r.Bound("sched_requests_per_execution", map[bool]int{false: 2, true: 3}[r.Thorough()])
 	r.Bound("sched_pairs_preemption_bound", "none (complete) on the 1-middleware chain; "+fmt.Sprint(fullBound)+" on the full chain")
 	if r.Thorough() {
-		r.Bound("sched_triples_preemption_bound", fmt.Sprintf("%d on the 1-middleware chain; 2 on the full chain", tripleBound))
+		r.Bound("sched_triples_preemption_bound", fmt.Sprintf("%d on the 1-middleware chain (all 286 multisets); 2 on the full chain (84 multisets over 7 request kinds)", tripleBound))
 	}
 	r.Bound("sched_request_multisets", len(jobs))
 	maxPoints, complete := 0, 0
